@@ -101,7 +101,8 @@ pub fn check_real(e: End, wbits: usize, backend: &str, finisher: &str, ops: &[WO
     let pending = bits.len() % wbits;
     let mut want = bits.to_bytes(e, wbits);
     if backend == "slice" {
-        want.resize(cap * wbits / 8, 0);
+        // the fixed slice starts out holding a non-zero pattern: words never written keep it
+        want.resize(cap * wbits / 8, crate::wr::VECPRE_BYTE);
     }
     if backend == "vecpre" && want.len() < cap * wbits / 8 {
         want.resize(cap * wbits / 8, crate::wr::VECPRE_BYTE);
